@@ -6,6 +6,7 @@ import (
 	"context"
 	"errors"
 	"fmt"
+	"io"
 	"sort"
 	"sync"
 	"time"
@@ -83,7 +84,8 @@ func NewConsensus(
 		return nil, err
 	}
 	consensus := libp2praft.NewOpLog(state, baseOp)
-	raft, err := newRaftWrapper(host, cfg, consensus.FSM(), staging)
+	fsm := &restoreFSM{FSM: consensus.FSM(), state: state}
+	raft, err := newRaftWrapper(host, cfg, fsm, staging)
 	if err != nil {
 		logger.Error("error creating raft: ", err)
 		return nil, err
@@ -110,6 +112,35 @@ func NewConsensus(
 
 	go cc.finishBootstrap()
 	return cc, nil
+}
+
+// restoreFSM is the go-libp2p-raft FSM with a Restore() that replaces the
+// state. Raft expects FSM.Restore to discard all previous state, but the
+// underlying Restore() unmarshals the snapshot on top of the current state
+// and dsstate's Unmarshal only adds entries. Without emptying the state
+// first, a peer which is sent a snapshot while still holding pins that were
+// removed in the meantime would keep them forever.
+type restoreFSM struct {
+	*libp2praft.FSM
+	state state.State
+}
+
+// Restore empties the state and then loads the snapshot onto it.
+func (fsm *restoreFSM) Restore(r io.ReadCloser) error {
+	ctx := context.Background()
+	pins, err := fsm.state.List(ctx)
+	if err != nil {
+		r.Close()
+		return err
+	}
+	for _, pin := range pins {
+		err = fsm.state.Rm(ctx, pin.Cid)
+		if err != nil {
+			r.Close()
+			return err
+		}
+	}
+	return fsm.FSM.Restore(r)
 }
 
 // WaitForSync waits for a leader and for the state to be up to date, then returns.
